@@ -69,3 +69,10 @@ M("c20-evicted-waiter-recomputes-under-stale-lock", "C20", FN, Q,
   "                if entry is None or (cached_value := entry[0]) is initial_missing:", ["R20-c"])
 M("c20-retry-only-when-missing", "C20", FN, Q, "if entry is None or (entry[1] is not None and entry[1] is not lock):", "if entry is None:", ["R20-c"])
 N("c20-n-reread-two-steps", "C20", FN, Q, "                if (cached_value := entry[0]) is initial_missing:", "                if (cached_value := entry[0]) is not initial_missing:\n                    pass\n                if cached_value is initial_missing:")
+
+# from seeded change C20/c (round 2) and the now-harmless C20/a
+M("c20-hit-bookkeeping-after-checkpoint", "C20", FN, Q,
+  "                    self._hits += 1\n                    cache_entry.move_to_end(key)\n                    if self._always_checkpoint:\n                        await checkpoint()\n",
+  "                    if self._always_checkpoint:\n                        await checkpoint()\n\n                    self._hits += 1\n                    cache_entry.move_to_end(key)\n", ["R20-b"])
+N("c20-n-drop-own-placeholder-on-failure", "C20", FN, Q, "                    value = await self.__wrapped__(*args, **kwargs)\n                    expires_at",
+  "                    try:\n                        value = await self.__wrapped__(*args, **kwargs)\n                    except BaseException:\n                        del cache_entry[key]\n                        raise\n\n                    expires_at")
